@@ -85,7 +85,7 @@ NOTE_OVERRIDE = {
     'C16': "Truthfulness is proved for ndl.ndl chains (ndl_chain_reports: number_events entry i is the count the learner model returns, path / method / parameters those of call i) and the append-one-entry rule for chains of any length and any starting attrs; dict_ndl / wh chains: append rule only. partial: netCDF4/HDF5/xarray serialisation cannot be modelled — the netCDF clause is decided only by the differential run (values bit-exact, coords, attrs, continued learning); supplied strings contain no '|' and no trailing space; Python str() of floats/tuples is Python-supplied.",
     'C17': "partial: that the real bodies only write below their TemporaryDirectory (OnlyBelow) is what the differential run observes, not a theorem about the code; under it: paths and file CONTENTS unchanged (fs_clean_contents, inputs_unchanged), spool and chunk directory as siblings as in the code; shutil.rmtree succeeds and Pool.terminate leaves no writer (assumed).",
     'C18': "correlation_eq_pearson composes the model run with Pearson's r over the reals (2 <= rows, no constant / non-finite column); Cython prange variables are thread-private (assumed). The square root is irrational: value comparison |r^2 - nom^2/den^2| <= 2^-40 in Fraction arithmetic; rounding in np.mean/np.std; generators stay inside |x| <= 9 resp. N(0,1) except the extreme_range stream of F12.",
-    'C19': "The time arithmetic is a parameter of the model; the driver evaluates it in IEEE doubles like the code (Lean Float = C double, trusted), the exact-time theorems (corpus_eq, not_found_listed, corpus_error_prefix) carry TimesExact (pause at least one frame from the break duration or whole seconds; literal domain) and the NAMED assumption FloatCompareAgrees (proved by kernel evaluation for every concrete document in the file, incl. the boundary counter-example); structural theorems hold for every arithmetic. xml.etree, gzip and os.walk(followlinks=True) are trusted (the harness writes real gzip XML from the JSON tree).",
+    'C19': "The time arithmetic is a parameter of the model; the driver evaluates it in IEEE doubles like the code (Lean Float = C double, trusted). The exact-time theorems (corpus_eq, not_found_listed, corpus_error_prefix, clean_document_code) carry the decidable hypothesis CodeCompareAgrees (the doubles and the rationals order every pair of times the reader can compare the same way), which the driver evaluates for every generated document; that the margin condition TimesExact implies it (TimesExactSuffices) is an OPEN statement — not proved in general (Lean's Float model ships almost no lemmas), kernel-evaluated on the documents of the file incl. the boundary counter-example, and checked on every generated document. Structural theorems hold for every arithmetic. xml.etree, gzip and os.walk(followlinks=True) are trusted (the harness writes real gzip XML from the JSON tree).",
     'C20': "sample_size is an Int (negative: every retained word; 0: ZeroDivisionError; float sizes only through the *_any_step theorems); band_size needs sample_size >= 1 and positive retained frequencies; load_save needs CR/TAB/LF-free distinct keys and an LF-free header (each shown necessary); 'leaves its argument unchanged' is definitional in the model (test only); float accumulator vs rationals outside the dyadic stream (predicates only there).",
 }
 
